@@ -17,7 +17,8 @@ structure PrimOK0 (R : St → St → Prop) : Prop where
   trans : ∀ {a b c}, R a b → R b c → R a c
   get : ∀ s, R s s.get.2
   put : ∀ s x, R s (s.put x)
-  ev : ∀ s e, R s (s.ev e)
+  /-- logging an oracle query -/
+  ev : ∀ s i c, R s (s.ev (.query i c))
 
 structure PrimOK (R : St → St → Prop) : Prop extends PrimOK0 R where
   seen : ∀ s x, R s { s with seen := x :: s.seen }
@@ -37,7 +38,7 @@ theorem leafNew_prim (c : Cls) (pc : List Cls) (s : St) : R s (leafNew env c pc 
     split
     · exact p.trans hg (p.put _ _)
     · simp only
-      have h2 := p.trans hg (p.ev s1 (.query it.id c))
+      have h2 := p.trans hg (p.ev s1 it.id c)
       split
       · split
         · exact h2
@@ -111,14 +112,14 @@ theorem logExt_prim : PrimOK LogExt where
   trans := LogExt.trans
   get := fun s => ⟨[Ev.get (s.stream.get.1.map (·.id))], rfl⟩
   put := fun s x => ⟨[Ev.put x.id], rfl⟩
-  ev := fun s e => ⟨[e], rfl⟩
+  ev := fun s i c => ⟨[Ev.query i c], rfl⟩
   seen := fun s x => ⟨[], rfl⟩
 
 theorem logExt_ok (env : Env) : RelOK env LogExt where
   refl := LogExt.refl
   trans := LogExt.trans
   put := logExt_prim.put
-  ev := logExt_prim.ev
+  ev := fun s e _ => ⟨[e], rfl⟩
   leaf := leafNew_prim logExt_prim
   comment := commentNew_prim logExt_prim.toPrimOK0
   directive := directiveNew_prim logExt_prim.toPrimOK0
@@ -228,14 +229,14 @@ theorem scopeR_prim : PrimOK ScopeR where
   trans := ScopeR.trans
   get := fun s => ⟨logExt_prim.get s, fun _ => rfl⟩
   put := fun s x => ⟨logExt_prim.put s x, fun _ => rfl⟩
-  ev := fun s e => ⟨logExt_prim.ev s e, fun _ => rfl⟩
+  ev := fun s i c => ⟨logExt_prim.ev s i c, fun _ => rfl⟩
   seen := fun s x => ⟨logExt_prim.seen s x, fun _ => rfl⟩
 
 theorem scopeR_ok (env : Env) : RelOK env ScopeR where
   refl := ScopeR.refl
   trans := ScopeR.trans
   put := scopeR_prim.put
-  ev := scopeR_prim.ev
+  ev := fun s e _ => ⟨⟨[e], rfl⟩, fun _ => rfl⟩
   leaf := leafNew_prim scopeR_prim
   comment := commentNew_prim scopeR_prim.toPrimOK0
   directive := directiveNew_prim scopeR_prim.toPrimOK0
@@ -402,7 +403,7 @@ theorem guardR_ok (env : Env) (g : Item) (post : List Item) (hu : Unmatched env 
   refl := fun s => GuardS.refl g post s.stream
   trans := fun h1 h2 => GuardS.trans h1 h2
   put := fun s x => GuardS.put g post s.stream x
-  ev := fun s e => GuardS.refl g post s.stream
+  ev := fun s e _ => GuardS.refl g post s.stream
   leaf := fun c pc s => by
     unfold GuardR leafNew
     split
@@ -482,7 +483,7 @@ theorem sameSeen_prim : PrimOK0 SameSeen where
   trans := fun h1 h2 => by unfold SameSeen at *; rw [h2, h1]
   get := fun _ => rfl
   put := fun _ _ => rfl
-  ev := fun _ _ => rfl
+  ev := fun _ _ _ => rfl
 
 theorem SameSeen.cache {s s' : St} (h : SameSeen s s') : CacheR s s' := by
   intro hn; unfold SameSeen at h; rw [h]; exact hn
@@ -491,7 +492,7 @@ theorem cacheR_ok (env : Env) : RelOK env CacheR where
   refl := fun _ h => h
   trans := fun h1 h2 h => h2 (h1 h)
   put := fun _ _ h => h
-  ev := fun _ _ h => h
+  ev := fun _ _ _ h => h
   leaf := fun c pc s => by
     unfold CacheR leafNew
     intro h
@@ -529,6 +530,83 @@ theorem cacheR_ok (env : Env) : RelOK env CacheR where
     unfold CacheR St.exit at *; intro h0; split <;> exact h h0
   leak := fun s n s' g _ h => h
   empty := fun s s' h => h
+  enter_exit_ok := trivial
+
+theorem ghostIf_log (b : Bool) (g : Ghost) (s : St) : LogExt s (ghostIf b g s) := by
+  unfold ghostIf; split
+  · exact ⟨[_], rfl⟩
+  · exact LogExt.refl _
+
+theorem seqNR_log (env : Env) {f : F} (hf : FRel LogExt f) (q : Quirks) (cs : List Cls) (rc : List Tree)
+    (s : St) : LogExt s (seqNR q f cs rc s).2 := by
+  induction cs generalizing rc s with
+  | nil => simp only [seqNR]; exact LogExt.refl _
+  | cons c cs ih =>
+    simp only [seqNR]
+    split
+    · have h1 := callCatch_rel hf c s
+      split
+      · rename_i e s1 heq; rw [heq] at h1; exact h1
+      · rename_i s1 heq; rw [heq] at h1
+        exact h1.trans (restoreRc_rel (logExt_ok env) _ _)
+      · rename_i t s1 heq; rw [heq] at h1; exact h1.trans (ih _ _)
+    · have h1 := hf c s
+      split
+      · rename_i e s1 heq; rw [heq] at h1; exact h1.trans (ghostIf_log _ _ _)
+      · rename_i s1 heq; rw [heq] at h1; exact h1.trans (ghostIf_log _ _ _)
+      · rename_i t s1 heq; rw [heq] at h1; exact h1.trans (ih _ _)
+
+/-! ## the repaired shared-DO `match` never drops -/
+
+def isSeqDrop : Ev → Bool
+  | .ghost .seqDrop => true
+  | _ => false
+
+/-- number of `seqDrop` events -/
+def SD (s : St) : Nat := (s.log.filter isSeqDrop).length
+
+def SeqR (s s' : St) : Prop := SD s' = SD s
+
+theorem SD_ev_other (s : St) (e : Ev) (h : isSeqDrop e = false) : SD (s.ev e) = SD s := by
+  simp [SD, St.ev, List.filter_cons, h]
+
+theorem seqR_prim : PrimOK SeqR where
+  refl := fun _ => rfl
+  trans := fun h1 h2 => by unfold SeqR at *; rw [h2, h1]
+  get := fun s => by simp [SeqR, SD, St.get, List.filter_cons, isSeqDrop]
+  put := fun s x => by simp [SeqR, SD, St.put, List.filter_cons, isSeqDrop]
+  ev := fun s i c => SD_ev_other s _ rfl
+  seen := fun _ _ => rfl
+
+/-- for a table whose shared-DO `match` restores (`seqRestores`), no `seqDrop` is ever logged -/
+theorem seqR_ok (env : Env) (hq : env.tbl.quirks.seqRestores = true) : RelOK env SeqR where
+  refl := fun _ => rfl
+  trans := fun h1 h2 => by unfold SeqR at *; rw [h2, h1]
+  put := seqR_prim.put
+  ev := fun s e he => by
+    apply SD_ev_other
+    cases e with
+    | ghost g =>
+      cases g with
+      | seqDrop => have := he rfl; rw [hq] at this; cases this
+      | _ => rfl
+    | _ => rfl
+  leaf := leafNew_prim seqR_prim
+  comment := commentNew_prim seqR_prim.toPrimOK0
+  directive := directiveNew_prim seqR_prim.toPrimOK0
+  peek := peek_prim seqR_prim.toPrimOK0
+  remove := fun s n => by simp [SeqR, SD, List.filter_cons, isSeqDrop]
+  exit := fun s n s' h => by
+    unfold SeqR at *
+    have : SD s'.exit.2 = SD s' := by simp [SD, List.filter_cons, isSeqDrop]
+    rw [this, h]; simp [SD, St.enter, List.filter_cons, isSeqDrop]
+  leak := fun s n s' g hg h => by
+    unfold SeqR at *
+    rw [SD_ev_other _ _ (by rcases hg with rfl | rfl <;> rfl), h]
+    simp [SD, St.enter, List.filter_cons, isSeqDrop]
+  empty := fun s s' h => by
+    unfold SeqR at *
+    rw [h]; simp [SD, St.enter, St.ev, List.filter_cons, isSeqDrop]
   enter_exit_ok := trivial
 
 end Fp.Block
